@@ -372,17 +372,36 @@ async fn run(ops: Vec<Value>, scratch: PathBuf) -> Value {
         }
     }
 
-    // let connection loggers drop and the event writer flush: stop when the event directory is quiet
-    tokio::time::sleep(Duration::from_millis(60)).await;
-    let count = |d: &Path| std::fs::read_dir(d).map(|r| r.count()).unwrap_or(0);
-    let mut last = count(&events_dir);
-    for _ in 0..50 {
-        tokio::time::sleep(Duration::from_millis(50)).await;
-        let now = count(&events_dir);
-        if now == last {
-            break;
+    // let connection loggers drop; then make sure the event writer has flushed everything queued so far:
+    // push a marker event and wait until it is on disk (the queue is FIFO and a flush drains it whole)
+    tokio::time::sleep(Duration::from_millis(40)).await;
+    let marker = format!("c12-flush-marker-{}-{}", std::process::id(), polls);
+    proxy_agent_shared::telemetry::event_logger::write_event(
+        proxy_agent_shared::logger::LoggerLevel::Info,
+        marker.clone(),
+        "flush",
+        "c12_driver",
+        gpa::common::logger::AGENT_LOGGER_KEY,
+    );
+    let mut flushed = false;
+    'wait: for _ in 0..1500 {
+        tokio::time::sleep(Duration::from_millis(20)).await;
+        if let Ok(rd) = std::fs::read_dir(&events_dir) {
+            for e in rd.flatten() {
+                if e.path().extension().map(|x| x != "json").unwrap_or(true) {
+                    continue; // a .tmp still being written
+                }
+                if let Ok(text) = std::fs::read_to_string(e.path()) {
+                    if text.contains(&marker) {
+                        flushed = true;
+                        break 'wait;
+                    }
+                }
+            }
         }
-        last = now;
+    }
+    if !flushed && error.is_none() {
+        error = Some("the event writer did not flush the marker event within 30 s".to_string());
     }
     let received = host.received.lock().unwrap().clone();
     json!({
